@@ -33,6 +33,7 @@
 
 #include <pika/config.hpp>
 #include <pika/assert.hpp>
+#include <pika/config/verif_hooks.hpp>
 #include <pika/execution_base/this_thread.hpp>
 
 #include <atomic>
@@ -201,6 +202,7 @@ namespace pika {
                 if (base.arrive(expected, old_phase))
                 {
                     completion();
+                    PIKA_VERIF_POINT(::pika::verif::barrier_after_completion, this);
                     expected += expected_adjustment.load(std::memory_order_relaxed);
                     expected_adjustment.store(0, std::memory_order_relaxed);
                     phase.store(old_phase + 2, std::memory_order_release);
